@@ -25,6 +25,7 @@ import (
 	"github.com/icon-project/goloop/module"
 	"github.com/icon-project/goloop/service/platform/basic"
 	"github.com/icon-project/goloop/service/transaction"
+	"github.com/icon-project/goloop/service/txresult"
 	"github.com/icon-project/goloop/test"
 
 	bfix "verif/lib/block"
@@ -50,7 +51,7 @@ func init() {
 		},
 		Rule: "each case = one real chain of 6 blocks produced by a goloop node (0-50 test transactions per block with payloads across RLP length boundaries, commit votes, half of the chains with an open BTP network so that blocks carry a BTP digest and NS filter) " +
 			"decoded by a second node through BlockManager.NewBlockDataFromReader and BlockDataFactory.NewBlockDataFromReader (seekable and plain readers). " +
-			"(1) round trip of every block: id, every header field, transaction bytes/ids in order, votes, digest, re-marshalled bytes; store round trip: every block re-materialized from the producer's database by a restarted node (GetBlock by id, GetBlockByHeight) and by the bare block handler (stored-header decoder) must have the id, fields and marshalled bytes recorded at finalization, and those bytes must decode again. " +
+			"(1) round trip of every block: id, every header field, transaction bytes/ids in order, votes, digest, re-marshalled bytes; store round trip: every block re-materialized from the producer's database by a restarted node (GetBlock by id, GetBlockByHeight) and by the bare block handler (stored-header decoder) must have the id, fields and marshalled bytes recorded at finalization, and those bytes must decode again; header-level round trip of valid blocks re-issued with ~30 DENSE logs blooms per chain (0x01..0xff, its permutations, all-0xff, random with 0-3 zero bytes) compressed by goloop itself: same bloom, id = sha3(header), same bytes. " +
 			"(2) mutants of the valid encodings: bit flips (all header bits, a sample of the rest in the quick tier, every bit of blocks up to 1.5 kB in the thorough tier), byte sets, truncations, inserted/deleted bytes, every RLP length field inflated/deflated (also inside the nested encodings of votes, digest and result), body parts of another block under this header (whole body, transactions, votes, digest), transactions swapped/dropped/duplicated/moved between patch and normal list. " +
 			"(3) hostile inputs: structured blocks with self-consistent hashes and hostile parts (BTP digests with boundary network ids, crafted vote lists, foreign/garbled transactions, proposer/bloom/result/filter of odd shapes, wrong item counts, non-canonical integers), RLP-shaped random trees and random bytes. " +
 			"Oracle: no panic in decoding or in using the decoded block (ID, Marshal, accessors); an accepted input's decoded transactions/votes/digest hash (recomputed here: sha3, a fresh transaction list on a fresh DB, own RLP splitter) to the fields of the input's header and its filter matches the digest; " +
@@ -67,7 +68,7 @@ func init() {
 			"hostile_structured", "hostile_random", "hostile_rlp_tree",
 			"accepted_checked", "rejected", "bodyswap_rejected", "accepted_header_mutation",
 			"via_manager", "via_factory_plain_reader",
-			"store_reload_checked", "store_reload_with_ns_filter", "store_reload_with_txs",
+			"roundtrips_with_dense_logs_bloom", "store_reload_checked", "store_reload_with_ns_filter", "store_reload_with_txs",
 		},
 		Assumptions: []string{
 			"golang.org/x/crypto/sha3 and goloop's transaction-list merkle hash (on a fresh DB) as the reference for the committed hashes",
@@ -960,6 +961,84 @@ func (e *env) storeRoundTrip() {
 	}
 }
 
+// denseBloomRoundTrip: the header stores the logs bloom LZW-compressed and the
+// id is the hash of the re-encoded header, so the round trip depends on
+// compress/decompress being exact inverses. Fixture blocks only have sparse
+// blooms; here the header of a valid block is re-issued exactly as a node would
+// serialize it for a DENSE bloom (goloop's own LogsBloom.CompressedBytes of the
+// chosen bloom in the bloom field, everything else unchanged) and must decode
+// to a block with that bloom, with id = sha3(header bytes), re-marshalling to
+// the same bytes.
+func (e *env) denseBloomRoundTrip() {
+	c, r := e.c, e.r
+	var blooms [][]byte
+	seq := make([]byte, 255)
+	for i := range seq {
+		seq[i] = byte(i + 1)
+	}
+	blooms = append(blooms, seq, bytes.Repeat([]byte{0xff}, 256))
+	for i := 0; i < 4; i++ { // permutations of 1..255: 255 bytes without a repeated pair
+		p := append([]byte(nil), seq...)
+		r.Shuffle(len(p), func(a, b int) { p[a], p[b] = p[b], p[a] })
+		blooms = append(blooms, p)
+	}
+	for i := 0; i < c.Pick(25, 100); i++ {
+		b := gen.Bytes(r, 256)
+		if b[0] == 0 {
+			b[0] = 1
+		}
+		for z := r.Intn(4); z > 0; z-- {
+			b[1+r.Intn(255)] = 0
+		}
+		blooms = append(blooms, b)
+	}
+	for i, bloom := range blooms {
+		if e.dead() {
+			return
+		}
+		vb := e.vbs[r.Intn(len(e.vbs))]
+		ref := txresult.NewLogsBloom(bloom)
+		comp := ref.CompressedBytes()
+		h := make([][]byte, len(vb.hdr.Items))
+		for j, it := range vb.hdr.Items {
+			h[j] = it.Raw
+		}
+		h[9] = bfix.EncBytes(comp)
+		hdr := bfix.EncList(h...)
+		in := append(append([]byte(nil), hdr...), vb.body.Raw...)
+		c.Eval(1)
+		c.Note("dense-bloom #%d bloom=%x", i, bloom)
+		e.curDesc = fmt.Sprintf("dense-bloom #%d", i)
+		d := e.decode(in)
+		wit := func(extra map[string]interface{}) map[string]interface{} {
+			m := map[string]interface{}{"case": e.ci, "bloom": hexs(bloom), "compressed_by_goloop": hexs(comp), "input": hexs(in), "entry_point": d.via}
+			for k, v := range extra {
+				m[k] = v
+			}
+			return m
+		}
+		if d.panic != "" {
+			c.Violation("decoder.panic@"+d.where, wit(map[string]interface{}{"panic": d.panic}))
+			continue
+		}
+		if d.err != nil || d.bd == nil {
+			c.Violation("roundtrip.dense-bloom.decode-failed", wit(map[string]interface{}{"err": fmt.Sprint(d.err)}))
+			continue
+		}
+		if got := d.bd.LogsBloom().Bytes(); !bytes.Equal(got, ref.Bytes()) {
+			c.Violation("roundtrip.field.logs-bloom", wit(map[string]interface{}{"decoded_bloom": hexs(got)}))
+		}
+		if !bytes.Equal(d.bd.ID(), sum(hdr)) {
+			c.Violation("roundtrip.field.id", wit(map[string]interface{}{"decoded_id": hexs(d.bd.ID()), "sha3_of_header": hexs(sum(hdr))}))
+		}
+		var buf bytes.Buffer
+		if err := d.bd.Marshal(&buf); err != nil || !bytes.Equal(buf.Bytes(), in) {
+			c.Violation("roundtrip.remarshal-differs", wit(map[string]interface{}{"remarshalled": hexs(buf.Bytes()), "err": fmt.Sprint(err)}))
+		}
+		c.Count("roundtrips_with_dense_logs_bloom", 1)
+	}
+}
+
 func run(c *ev.Ctx) {
 	bfix.Silence()
 	startMonitor(c)
@@ -994,6 +1073,7 @@ func run(c *ev.Ctx) {
 			e.roundTrip(vb)
 		}
 		e.storeRoundTrip()
+		e.denseBloomRoundTrip()
 		for bi, vb := range e.vbs {
 			if e.dead() {
 				return
